@@ -28,7 +28,7 @@ def parseD (t : String) : Option DPart :=
   | ['t'] => some .star
   | _ => none
 
-/-- tokens: `L<hex>` `S<hex>` `E<hex>` `A` `T` `D(` inner… `)`; inner: `l<hex>` `e<hex>` `a` `t`. -/
+/-- tokens: `L<hex>` `S<hex>` `E<hex>` `O<op><hex>` `A` `T` `D(` inner… `)`; inner: `l<hex>` `e<hex>` `a` `t`. -/
 def parseParts : Nat → List String → Option (List Part)
   | 0, _ => none
   | _, [] => some []
@@ -45,6 +45,8 @@ def parseParts : Nat → List String → Option (List Part)
         | 'L' :: _ => (ofHex (tail1 t)).map .lit
         | 'S' :: _ => (ofHex (tail1 t)).map .sgl
         | 'E' :: _ => (ofHex (tail1 t)).map fun b => .exp (decodeSyms b)
+        -- `${u0:-"val"}` and friends (harness/c22.go kind 'O'): an unquoted expansion with that value
+        | 'O' :: _ :: _ => (ofHex (String.ofList (t.toList.drop 2))).map fun b => .exp (decodeSyms b)
         | ['A'] => some .at
         | ['T'] => some .star
         | _ => none
